@@ -106,6 +106,7 @@ class C18(Prop):
             counts = {}
             since_reset = 0
             fresh = True          # nothing recorded since construction / the last clear
+            lower = {}            # key -> a lower bound of its current estimate
             reset_at = int(case.args[0]) if case.comp == "tlfu" else None
             for op, l in zip(case.ops, il):
                 fs = op.split()
@@ -123,15 +124,24 @@ class C18(Prop):
                     if reset_at is not None and since_reset >= reset_at:
                         counts = {}
                         since_reset = 0
+                        # aging: counters are halved, the doorkeeper (worth +1) is cleared
+                        lower = {q: max(0, (b - 1) // 2) for q, b in lower.items()}
                 if ks:
                     fresh = False
                 if fs[0] in ("reset", "clear"):
                     counts = {}
                     since_reset = 0
                     fresh = fresh or fs[0] == "clear"
+                    lower = {} if fs[0] == "clear" else {q: b // 2 for q, b in lower.items()}   # sketch-level reset halves
                 if fs[0] == "est" and fresh and int(l) != 0:
                     fails.append("estimate(%s)=%s right after a clear (nothing recorded since): a clear zeroes everything" % (fs[1], l.strip()))
                 if fs[0] == "est":
+                    # estimates only grow under accesses (of any key) and are halved by aging: what was read before
+                    # bounds what is read now
+                    if int(l) < lower.get(fs[1], 0):
+                        fails.append("estimate(%s)=%s although it was at least %d after the last aging (ages by halving)" % (
+                            fs[1], l.strip(), lower[fs[1]]))
+                    lower[fs[1]] = max(lower.get(fs[1], 0), int(l))
                     v = int(l)
                     nacc = counts.get(fs[1], 0)
                     lo = min(nacc, 15)
